@@ -5,6 +5,8 @@ def run(prop, reg, tier, seed, workdir, replay, C):
     eng = reg.get("engine", "hub")
     if eng == "hub":
         return run_hub_engine(prop, reg, tier, seed, workdir, replay, C)
+    if eng == "conn":
+        return run_conn_engine(prop, reg, tier, seed, workdir, replay, C)
     if eng == "none":
         return {"evaluations": 0, "distinct_nontrivial": 0, "rule": "no harness for this property", "samples": []}
     raise SystemExit("unknown engine " + eng)
@@ -50,4 +52,59 @@ def run_hub_engine(prop, reg, tier, seed, workdir, replay, C):
     total["rule"] = ("histories generated from VERIF_SEED by harness/hub (profile per property); every op executed on the real keepers "
                      "and on the Lean model, outputs compared line by line; distinct_nontrivial = number of distinct (op kind, outcome) "
                      "classes exercised (at least the number of histories with a successful state-changing op)")
+    return total
+
+
+def conn_run(C, args, outdir):
+    import subprocess
+    os.makedirs(outdir, exist_ok=True)
+    rc, o = C.sh([os.path.join(C.BUILD, "connharness")] + args + ["--out", outdir], cwd=outdir, timeout=1800)
+    if rc != 0:
+        return {"error": "connharness failed: " + o[-2000:]}
+    ops = open(os.path.join(outdir, "ops.txt")).read()
+    rc, mo = C.sh([os.path.join(C.LEAN, ".lake/build/bin/conndriver")], inp=ops, timeout=1800)
+    impl = open(os.path.join(outdir, "impl.txt")).read().splitlines()
+    model = mo.splitlines()
+    opl = ops.splitlines()
+    res = json.load(open(os.path.join(outdir, "result.json")))
+    first, nd = None, 0
+    for i, line in enumerate(opl):
+        a = impl[i] if i < len(impl) else "<none>"
+        b = model[i] if i < len(model) else "<none>"
+        if a != b:
+            nd += 1
+            if first is None:
+                j = i
+                while j > 0 and opl[j] != "m_reset":
+                    j -= 1
+                first = {"line": i, "op": line, "impl": a, "model": b, "ops": opl[j:i + 1]}
+    res["diffs"], res["first_diff"] = nd, first
+    res["sample"] = opl[:40]
+    return res
+
+def run_conn_engine(prop, reg, tier, seed, workdir, replay, C):
+    total = {"histories": 0, "evaluations": 0, "stats": {}, "violations": [], "diffs": 0, "first_diff": None, "samples": []}
+    def one(args, d):
+        r = conn_run(C, args, d)
+        merge(total, r)
+        if r.get("sample"):
+            total["samples"].append(r["sample"])
+    if replay:
+        ops = replay
+        if replay.endswith(".json"):
+            j = json.load(open(replay))
+            ops = os.path.join(workdir, "replay.ops")
+            open(ops, "w").write("\n".join(j.get("ops", [])) + "\n")
+        one(["replay", "--ops-file", ops], os.path.join(workdir, "replay"))
+    else:
+        for i, f in enumerate(sorted(glob.glob(os.path.join(C.ROOT, "corpus", prop, "*.ops")))):
+            one(["replay", "--ops-file", f], os.path.join(workdir, f"corpus{i}"))
+        for i, run in enumerate(reg.get(tier, reg.get("quick", []))):
+            one(["gen", "--seed", str(seed + i * 7919), "--histories", str(run["histories"]), "--ops", str(run["ops"])], os.path.join(workdir, f"run{i}"))
+    st = total["stats"]
+    total["distinct_nontrivial"] = max(len(st), min(total["histories"], st.get("resync:commits", 0)))
+    total["rule"] = ("Minter block histories (several bridge events per block, invalid commands interleaved, batches, multisig edits), "
+                     "restart positions (every commit of a scan can be the persisted cursor) and acknowledged nonces generated from VERIF_SEED; "
+                     "the real GetLatestMinterBlockAndNonce runs against a scripted node with every Commit captured; compared with the Lean model; "
+                     "distinct_nontrivial = distinct (op, outcome) classes (at least the number of histories with a committing scan)")
     return total
